@@ -98,7 +98,8 @@ def gen_diff_case(rng, tier):
         st = rng.choice(['contend', 'contend', 'simul', 'benign'])
         pairing = rng.choice(gen.PAIRINGS)
         delays = rng.choice(['none', 'none', 'fixed', 'model'])
-        case = gen.gen_case(rng, st, pairing, tier=tier, delays=delays)
+        case = gen.gen_case(rng, st, pairing, tier=tier, delays=delays,
+                            wide=(rng.random() < 0.7))
         if delays == 'model':
             # keep zero-runtime tasks away from the real delay model (its own defect, C15)
             for o in case['observations']:
@@ -111,10 +112,10 @@ def gen_diff_case(rng, tier):
     return None
 
 
-def run_one_for_diff(case, workdir):
+def run_one_for_diff(case, workdir, shared=None):
     from . import sim
     B = gen.serial_bound(case)
-    res, tr = sim.run_case(case, bound=min(B, 120), workdir=workdir)
+    res, tr = sim.run_case(case, bound=min(B, 120), workdir=workdir, shared=shared)
     return canonical(res), tr
 
 
@@ -158,8 +159,9 @@ def hashdiff(job, prop, case=None):
         refs = []
         for n, c in enumerate(cases):
             wd = os.path.join(base, 'case%d' % n)
-            a, tr = run_one_for_diff(c, wd)
-            b, _ = run_one_for_diff(c, wd)
+            shared = {}
+            a, tr = run_one_for_diff(c, wd, shared)
+            b, _ = run_one_for_diff(c, wd, shared)
             out['evaluations'] += 2
             out['events'] += tr.env.n_events if tr.env is not None else 0
             contended = tr.cnt.get('alg_contended_rounds', 0) > 0
@@ -308,6 +310,22 @@ def pause(job, prop, case=None):
                                 'kind': ('event_log' if dup else str(d.get('table'))),
                                 'paused': True, 'schedule': sch, 'diff': d, 'T': T,
                                 'history': wit})
+        if prop == 'C12':
+            from . import oracles
+            n0 = len(tr.viol)
+            oracles.c12(case, tr, res)
+            for v in tr.viol[n0:]:
+                if v['prop'] == 'C12':
+                    v = dict(v)
+                    v['paused'] = True
+                    v['schedule'] = sch
+                    v['history'] = wit
+                    out['viol'].append(v)
+            out['cnt']['c12_rows'] = out['cnt'].get('c12_rows', 0) + tr.cnt.get('c12_rows', 0)
+            out['cnt']['c12_paused_runs'] = out['cnt'].get('c12_paused_runs', 0) + 1
+            if tr.cnt.get('c12_two_ingests'):
+                out['extra_nontrivial'].append(case_hash(case))
+            continue
         if prop == 'C13':
             # the event-log oracle itself on the paused run
             from . import oracles
@@ -358,6 +376,11 @@ def refusal(job, prop, case=None):
     out['hash'] = case_hash(case)
     out['case'] = case
     k = spec if spec is not None else rng.randint(1, 6)
+    if spec is None and rng.random() < 0.5:
+        # pause point beyond the end of the run: the simulation has drained when start(k) returns
+        r0, t0 = sim.run_case(case, bound=100)
+        if r0['outcome'] == 'completed':
+            k = int(r0['T']) + rng.choice([0, 1, 2])
     wit = {'case': case, 'k': k}
 
     def fingerprint(sim_, env, tr):
@@ -390,6 +413,12 @@ def refusal(job, prop, case=None):
             r['second_start'] = 'raised ' + type(e).__name__
         r['start_changed'] = fingerprint(sim_, env, tr) != f1
         try:
+            sim_.resume(env.now + 1)          # resuming a started simulation is always allowed
+            r['resume_after_start'] = 'accepted'
+        except Exception as e:
+            r['resume_after_start'] = 'raised ' + type(e).__name__
+        f1 = fingerprint(sim_, env, tr)
+        try:
             sim_.start()
             r['third_start'] = 'accepted'
         except RuntimeError:
@@ -406,6 +435,10 @@ def refusal(job, prop, case=None):
     if r is None:
         out['outcome'] = 'refusal_' + str(res['outcome'])
         return out
+    if r.get('resume_after_start') != 'accepted':
+        out['viol'].append({'prop': 'C11', 'clause': 'resume_refused_after_start',
+                            'kind': 'resume_after_start', 'result': r.get('resume_after_start'),
+                            'history': wit})
     for key, chg in (('resume_before_start', 'resume_changed'), ('second_start', 'start_changed'),
                      ('third_start', 'start3_changed')):
         if r[key] != 'refused':
